@@ -18,4 +18,4 @@ after=$(ls -t /verif/replays/$P-* 2>/dev/null | head -1)
 if [ "$after" != "$before" ] && [ -n "$after" ]; then python3 -c "
 import json,sys
 o=json.load(open(sys.argv[1])); print('REPLAY:', o.get('kind'), '|', o.get('what'), '|', json.dumps(o.get('input'))[:400], '|', json.dumps(o.get('detail'))[:300], o.get('broken'))" $after; else echo "NO NEW REPLAY"; fi
-git -C /verif checkout -q evidence 2>/dev/null
+git -C /verif checkout -q evidence/$P.json 2>/dev/null   # only this property: fresh evidence of other checks stays
